@@ -126,6 +126,9 @@ type c11Result struct {
 	RouteDiff     string         `json:"route_table_diff,omitempty"`
 	HarnessErr    string         `json:"harness_error,omitempty"`
 	Capped        bool           `json:"capped"`
+	// InFlight is set in the partial result written before a request to /quit (whose handler ends the
+	// process by design): a worker that dies there leaves a result that names the request.
+	InFlight string `json:"in_flight,omitempty"`
 }
 
 type c11State struct {
@@ -151,6 +154,9 @@ type c11Run struct {
 	herr     string
 	sampled  map[string]int
 	stopped  bool
+	// halt: an accepted request damaged the node (e.g. /join of an unreachable peer took the quorum
+	// away); the violations found so far are reported, the rest of this worker's units is skipped
+	halt bool
 }
 
 func (r *c11Run) report(sig, desc string) {
@@ -164,6 +170,16 @@ func (r *c11Run) report(sig, desc string) {
 	r.res.Violations = append(r.res.Violations, v)
 }
 
+func (r *c11Run) write() {
+	b, _ := json.Marshal(r.res)
+	if o := os.Getenv("VERIF_OUT"); o != "" {
+		os.WriteFile(o+".tmp", b, 0644)
+		os.Rename(o+".tmp", o)
+	} else {
+		fmt.Println(string(b))
+	}
+}
+
 func (r *c11Run) violCount() int {
 	c := 0
 	for _, v := range r.res.Violations {
@@ -173,6 +189,9 @@ func (r *c11Run) violCount() int {
 }
 
 func (r *c11Run) fail(format string, a ...interface{}) {
+	if r.halt {
+		return
+	}
 	if r.herr == "" {
 		r.herr = "HARNESS: " + fmt.Sprintf(format, a...) + " (unit " + strings.Join(r.unit, " ") + ")"
 	}
@@ -317,6 +336,9 @@ func (r *c11Run) quiesce() {
 // exec runs one request on the real dispatcher.  A handler that streams (GET .../messages that
 // was accepted) is stopped as soon as `until` is satisfied.
 func (r *c11Run) exec(q *c11Req, h *api.HTTP, until func(code int, body string) bool, wait time.Duration) (vResp, error) {
+	if r.halt {
+		return vResp{}, fmt.Errorf("halted")
+	}
 	r.res.Requests++
 	r.res.Parts[q.part]++
 	if len(r.unit) > 1 {
@@ -464,9 +486,7 @@ func (r *c11Run) build(delMode string) *c11World {
 	default:
 		r.fail("unknown deletion mode %q", delMode)
 	}
-	if _, err := ircServer.GetSession(robust.Id{Id: w.D.Num}); err == nil {
-		r.fail("world: session D still exists after %s", delMode)
-	}
+	// (whether the deletion took D out of reach is for the matrix to find out, not a harness precondition)
 	last := mark("chan-b")
 	post(w.U, "PRIVMSG "+w.ch+" :"+last)
 	w.lastseen = fmt.Sprintf("%d.0", w.L.Num)
@@ -494,7 +514,7 @@ func (r *c11Run) alive(s vSession) bool {
 }
 
 func (r *c11Run) teardown(w *c11World) {
-	if r.stopped {
+	if r.stopped || r.halt {
 		return
 	}
 	for _, s := range []vSession{w.U, w.L, w.F, w.V} {
@@ -625,12 +645,18 @@ func (r *c11Run) leaks(w *c11World, q *c11Req, resp vResp) {
 
 // refused: the request must be refused without effect and without leak.
 func (r *c11Run) refused(w *c11World, q *c11Req) {
-	if r.herr != "" {
+	if r.herr != "" || r.halt {
 		return
 	}
 	h := r.n.api
 	if q.part == "private" {
 		h = r.freshAPI() // the back-off after a wrong password is per api.HTTP object
+	}
+	if q.route == "/quit" || q.route == "/raft/" {
+		// these handlers end the process when they are reached (/quit by design, /raft/ because the
+		// harness has no real raft transport)
+		r.res.InFlight = q.String()
+		r.write()
 	}
 	before := r.snap()
 	var t200 time.Time
@@ -644,6 +670,7 @@ func (r *c11Run) refused(w *c11World, q *c11Req) {
 		}
 		return c11ContainsAny(body, w.markers) != "" || time.Since(t200) > 30*time.Millisecond
 	}, 60*time.Second)
+	r.res.InFlight = ""
 	if err != nil {
 		r.fail("%s: %v", q.String(), err)
 		return
@@ -676,6 +703,10 @@ func (r *c11Run) refused(w *c11World, q *c11Req) {
 		ok = false
 		effect = "EFFECT"
 		r.report("refused request changed state", fmt.Sprintf("%s answered %d; %s", q.String(), resp.Code, d))
+		if before.servers != after.servers || before.cfgs != after.cfgs {
+			r.halt = true
+			r.res.Capped = true
+		}
 	}
 	r.leaks(w, q, resp)
 	r.outcome(q, resp.Code, effect)
@@ -1383,9 +1414,12 @@ func TestVerifC11(t *testing.T) {
 		b, _ := os.ReadFile(rp)
 		var v c11Viol
 		json.Unmarshal(b, &v)
-		if len(v.Unit) == 4 {
-			units = []c11Unit{{v.Unit[0], v.Unit[1], v.Unit[2], v.Unit[3]}}
+		if len(v.Unit) != 4 {
+			res.HarnessErr = "HARNESS: replay file " + rp + " is unreadable or names no unit"
+			write()
+			return
 		}
+		units = []c11Unit{{v.Unit[0], v.Unit[1], v.Unit[2], v.Unit[3]}}
 		nshards, shard = 1, 0
 	}
 	r := &c11Run{res: res, sigs: map[string]*c11Viol{}, sampled: map[string]int{}, dir: filepath.Join(t.TempDir(), "node")}
@@ -1426,6 +1460,9 @@ func TestVerifC11(t *testing.T) {
 		}
 		if r.herr != "" {
 			res.HarnessErr = r.herr
+			break
+		}
+		if r.halt {
 			break
 		}
 	}
